@@ -13,6 +13,9 @@ import Reduino.Lang.CSem
   Strings (W13): `_infer_expr_type` gives `String` for a literal and for a binary operation with a `String` operand; a constant string
   initialiser goes into the global declaration (`String s = "ab";`), anything else gets the default `""`.
   Programs that assign a NEW name below the top level (they need the promotion machinery) are outside the fragment.
+  Helper functions (W6): a call statement is translated together with the definition it carries (`funShapeOk`, `funDecls`, `retTy`,
+  `callSiteOk`, `funCallsStable`); `withHelpers` adds the list of emitted definitions (`trHelper`) after checking `Prog.resolved` and
+  `Prog.sigsOk` — see the comments there for the measured rules (which signature is emitted, when prototypes are).
 -/
 namespace Reduino.Lang
 
